@@ -115,8 +115,8 @@ LEMMAS = [("request_header_rule", lemma_request_rule), ("response_header_rule", 
 def payload_rows():
     rows = []
     for c in shapes.all_entity_classes():
-        if not hasattr(c, "__api_key__") or c.__type__.name not in ("request", "response"):
-            continue
+        if getattr(c, "__api_key__", None) is None or getattr(c, "__header_schema__", None) is None or c.__type__.name not in ("request", "response"):
+            continue  # reported by every_request_and_response_class_advertises_api_key_and_header_schema
         parts = c.__module__.split(".")
         h = c.__header_schema__
         hv = int(h.__module__.split(".")[3][1:])
@@ -146,6 +146,11 @@ def facts_queries(rows):
     base = ak + av + af + ar + ah + ahk + ahr + aa
     results = []
     nq = 0
+    # a request/response class that advertises no API key or no header schema at all must not drop out of the table
+    silent = [shapes.class_id(c) for c in shapes.all_entity_classes()
+              if getattr(getattr(c, "__type__", None), "name", None) in ("request", "response")
+              and (getattr(c, "__api_key__", None) is None or getattr(c, "__header_schema__", None) is None)]
+    results.append(("every_request_and_response_class_advertises_api_key_and_header_schema", not silent, "; ".join(silent[:3])))
 
     def query(name, bad, describe):
         nonlocal nq
